@@ -870,6 +870,8 @@ class PytatoKeyBuilder(LoopyKeyBuilder):
     def update_for_ndarray(self, key_hash: Any, key: Any) -> None:
         import numpy as np
         assert isinstance(key, np.ndarray)
+        self.rec(key_hash, key.dtype.str)
+        self.rec(key_hash, key.shape)
         self.rec(key_hash, key.data.tobytes())
 
     def update_for_TaggableCLArray(self, key_hash: Any, key: Any) -> None:
